@@ -168,13 +168,13 @@ pub fn run(ctx: &Ctx, rep: &mut Report) {
         tuples_space(rep, &al8, n, "the 8-word alphabet");
     }
     rep.sample(sample_json("seven.sort", &show_words(&[al8[3], al8[0], al8[7], al8[2], al8[3], al8[5], al8[4]]), &format!("{:?}", AnyHand::from_words(&[al8[3], al8[0], al8[7], al8[2], al8[3], al8[5], al8[4]]).sort().to_vec())));
-    if ctx.tier.thorough() {
+    {
         let al12 = [0u32, 1, 23, d[51].word(), d[50].word(), mid, d[13].word(), d[0].word(), mid2 | (1 << 29), d[0].word() | (1 << 30), 0x8000_0000, u32::MAX];
         for n in 2..=6 {
             tuples_space(rep, &al12, n, "the 12-word alphabet");
         }
         let cards: Vec<u32> = d.iter().map(|c| c.word()).collect();
-        for n in 2..=4 {
+        for n in 2..=(if ctx.tier.thorough() { 4 } else { 3 }) {
             tuples_space(rep, &cards, n, "the 52 cards");
         }
     }
